@@ -145,7 +145,35 @@ fn main() {
             None => acc.internal_errors.push("the unchecked build of the harness (target/unchecked/vp) is missing: run ./check or the setup command".into()),
             Some(u) => {
                 let tmp = format!("{}/child-evidence-{}", std::env::temp_dir().display(), std::process::id());
-                let out = std::process::Command::new(u).arg(&id).arg(tier.name()).env("VP_CHILD", "1").env("VP_NO_FUZZ", "1").env("VP_EVIDENCE_DIR", &tmp).output();
+                // The child has its own watchdog; this process keeps its progress counter moving while
+                // it waits, and the child dies with this process (no orphan keeps the cores busy).
+                let out = (|| -> std::io::Result<std::process::Output> {
+                    use std::os::unix::process::CommandExt;
+                    let mut cmd = std::process::Command::new(u);
+                    cmd.arg(&id).arg(tier.name()).env("VP_CHILD", "1").env("VP_NO_FUZZ", "1").env("VP_EVIDENCE_DIR", &tmp);
+                    cmd.stdout(std::process::Stdio::piped()).stderr(std::process::Stdio::null());
+                    unsafe {
+                        cmd.pre_exec(|| {
+                            libc::prctl(libc::PR_SET_PDEATHSIG, libc::SIGKILL);
+                            Ok(())
+                        });
+                    }
+                    let mut child = cmd.spawn()?;
+                    let mut so = child.stdout.take().expect("piped stdout");
+                    let reader = std::thread::spawn(move || {
+                        let mut v = Vec::new();
+                        let _ = std::io::Read::read_to_end(&mut so, &mut v);
+                        v
+                    });
+                    let status = loop {
+                        if let Some(st) = child.try_wait()? {
+                            break st;
+                        }
+                        std::thread::sleep(std::time::Duration::from_millis(200));
+                        PROGRESS.fetch_add(1, std::sync::atomic::Ordering::Relaxed);
+                    };
+                    Ok(std::process::Output { status, stdout: reader.join().unwrap_or_default(), stderr: Vec::new() })
+                })();
                 match out {
                     Err(e) => acc.internal_errors.push(format!("cannot run the unchecked build: {e}")),
                     Ok(o) => {
